@@ -92,15 +92,15 @@ func markupSafe(c *km.Ctx, v ssa.Value, depth int) (bool, string) {
 		}
 		sites := c.G.Callers[fn]
 		if idx < 0 || len(sites) == 0 {
-			return false, "parameter " + x.Name() + " of " + fn.Name() + " (callers unknown)"
+			return false, "parameter " + x.Name() + " of " + km.NameOf(fn) + " (callers unknown)"
 		}
 		for _, cs := range sites {
 			ci, ok := cs.Instr.(ssa.CallInstruction)
 			if !ok {
-				return false, "non-call use of " + fn.Name()
+				return false, "non-call use of " + km.NameOf(fn)
 			}
 			if ok2, why := markupSafe(c, km.CallArgs(ci.Common())[idx], depth+1); !ok2 {
-				return false, "argument of " + fn.Name() + " in " + cs.Caller.Name() + ": " + why
+				return false, "argument of " + km.NameOf(fn) + " in " + km.NameOf(cs.Caller) + ": " + why
 			}
 		}
 		return true, "every caller passes a safe value"
